@@ -90,6 +90,9 @@ LAYERS = {
     "muxg": ("C02_MCMux", "C02_MCMux.cfg",
              {"Streams": S([1, 2]), "MaxSent": 2, "MaxWrite": 2, "MaxMsg": 1, "MaxTotal": 2, "MaxClose": 1, "Bufs": S([2]), "Glitches": CH_GLITCHES},
              {"Streams": S([1, 2]), "MaxSent": 2, "MaxWrite": 2, "MaxMsg": 1, "MaxTotal": 2, "MaxClose": 1, "Bufs": S([1, 2]), "Glitches": CH_GLITCHES}),
+    "start": ("C02_MCStart", "C02_MCStart.cfg",
+              {"HLen": 2, "MaxFrames": 2, "MaxUnits": 2, "Bufs": S([1, 2])},
+              {"HLen": 2, "MaxFrames": 3, "MaxUnits": 2, "Bufs": S([1, 2])}),
     "lazy": ("C02_MCLazyMS", "C02_MCLazyMS.cfg",
              {"MaxSent": 2, "MaxWrite": 2, "Bufs": S([1, 2])},
              {"MaxSent": 3, "MaxWrite": 2, "Bufs": S([1, 2])}),
